@@ -11,7 +11,8 @@ the XML 1.0 recommendation) - NOT from libosmium.
 Choices
     root      osm | osmChange          osmChange: every object inside <create> (version 1), <modify> or <delete> (invisible)
     sections  runs | each              osmChange: one section per run of equal actions / one per object
-    decl      std | none | bom | double | standalone     XML declaration variants (bom: UTF-8 byte order mark first)
+    decl      std | none | bom | double | standalone | doctype(tri)   XML declaration variants (bom: UTF-8 byte order mark
+                                       first; doctype: a document type declaration without internal subset)
     attrs     canonical | reversed | rot3 | idlast | sorted | perm:<p>   attribute order of every element
     quote     double | single | mixed
     escape    min | named | dec | hex | allhex    min: only what XML demands; named: all five predefined entities;
@@ -35,7 +36,7 @@ from model import NotEncodable, iso
 DIMS = [
     ("root", ["osm", "osmChange"]),
     ("sections", ["runs", "each"]),
-    ("decl", ["std", "none", "bom", "double", "standalone"]),
+    ("decl", ["std", "none", "bom", "double", "standalone", "doctype"]),
     ("attrs", ["canonical", "reversed", "rot3", "idlast", "sorted"]),
     ("quote", ["double", "single", "mixed"]),
     ("escape", ["min", "named", "dec", "hex", "allhex"]),
@@ -50,7 +51,7 @@ DIMS = [
     ("encoding", ["utf8", "ascii", "latin1", "utf16"]),
 ]
 DEFAULTS = {k: v[0] for k, v in DIMS}
-TRI = {"children": {"interleaved"}, "encoding": {"ascii", "latin1", "utf16"}}
+TRI = {"children": {"interleaved"}, "encoding": {"ascii", "latin1", "utf16"}, "decl": {"doctype"}}
 
 
 def resolve(choices):
@@ -292,12 +293,13 @@ def encode(dataset, choices=None):
         raise NotEncodable("without declaration the encoding is UTF-8")
     decl = {"std": "<?xml version='1.0' encoding='%s'?>" % enc, "none": "", "bom": "<?xml version='1.0' encoding='%s'?>" % enc,
             "double": '<?xml version="1.0" encoding="%s"?>' % enc,
-            "standalone": "<?xml version='1.0' encoding='%s' standalone='yes'?>" % enc}[d]
+            "standalone": "<?xml version='1.0' encoding='%s' standalone='yes'?>" % enc,
+            "doctype": "<?xml version='1.0' encoding='%s'?>\n<!DOCTYPE %s>" % (enc, c["root"])}[d]
     out = []
     if decl:
         out.append(decl + x.nl())
     if c["extras"] == "comments":
-        out.append("<!-- generated for C02 -- not by libosmium -->" + x.nl() + "<?verif instruction?>" + x.nl())
+        out.append("<!-- generated for C02, not by libosmium -->" + x.nl() + "<?verif instruction?>" + x.nl())
     ra = [("version", "0.6")]
     if h.get("generator") and c["optattrs"] != "sparse":
         ra.append(("generator", h["generator"]))
